@@ -10,7 +10,7 @@ from vf import foamdict, hexconv, lattice, util
 
 ID = "C01"
 BUDGET = {"quick": 4000, "thorough": 120000}
-REQUIRED = ["outcome:success", "outcome:InconsistentGradingsError", "outcome:UndefinedGradingsError",
+REQUIRED = ["outcome:success", "outcome:InconsistentGradingsError", "outcome:UndefinedGradingsError", "judged:multigraded-direction",
             "judged:edge-with-2+-blocks", "judged:wires-vs-written", "judged:second-write", "judged:assembly-with-merged-pair"]
 MIN_KEYS = 40
 RULE = (
@@ -24,6 +24,34 @@ ASSUMPTIONS = [
     "blockMesh rejects a dictionary in which one vertex pair carries two cell counts (OpenFOAM user guide)",
     "lattice node identity = vertex identity (nodes are >= 0.3 apart, far above the 1e-7 merge tolerance)",
 ]
+
+
+def sections(rng, total=None, lead=None):
+    """a direction chopped in 2-3 divisions (multigrading): [{length_ratio, count}, ...]. Patterns: two equal halves,
+    symmetric fine-coarse-fine (divisions of equal value), unequal counts; `total` fixes the sum of the counts,
+    `lead` the count of the first division."""
+    while True:
+        kind = rng.choice(["halves", "symmetric", "unequal", "unequal"])
+        if kind == "halves":
+            n = rng.randint(1, 6)
+            out = [(0.5, n), (0.5, n)]
+        elif kind == "symmetric":
+            a, b = rng.randint(1, 4), rng.randint(1, 5)
+            out = [(0.25, a), (0.5, b), (0.25, a)]
+        else:
+            k = rng.choice([2, 2, 3])
+            ratios = {2: rng.choice([[0.3, 0.7], [0.5, 0.5], [0.6, 0.4]]), 3: rng.choice([[0.2, 0.5, 0.3], [0.25, 0.25, 0.5]])}[k]
+            out = [(r, rng.randint(1, 6)) for r in ratios]
+        if lead is not None:
+            out[0] = (out[0][0], lead)
+        if total is not None:
+            rest = total - sum(n for _, n in out[:-1])
+            if rest < 1:
+                if total < 2:
+                    return [{"count": total}]
+                continue
+            out[-1] = (out[-1][0], rest)
+        return [{"length_ratio": r, "count": n} for r, n in out]
 
 
 def place_chops(rng, case, mode):
@@ -49,20 +77,40 @@ def place_chops(rng, case, mode):
             n1 = rng.randint(1, 12)
             n2 = n1 + rng.choice([1, 1, 2, 5, -1]) if n1 > 1 else n1 + 1
             odd = rng.randrange(len(ms))
+            style = rng.random()
             for i, (b, a) in enumerate(ms):
-                case["blocks"][b]["chops"].append([a, {"count": n2 if i == odd else n1}])
+                if i == odd and style < 0.3:
+                    # the odd one is multigraded and its first division agrees with the others' count
+                    secs = sections(rng, lead=n1)
+                    if sum(k["count"] for k in secs) == n1:
+                        secs[-1]["count"] += 1
+                    for kw in secs:
+                        case["blocks"][b]["chops"].append([a, kw])
+                elif i != odd and style > 0.8 and n1 >= 2:
+                    for kw in sections(rng, total=n1):
+                        case["blocks"][b]["chops"].append([a, kw])
+                else:
+                    case["blocks"][b]["chops"].append([a, {"count": n2 if i == odd else n1}])
             pattern[r] = "conflict" if len(ms) >= 2 else "one"
             continue
         u = rng.random()
         if u < 0.55 or len(members) == 1:
             b, a = rng.choice(members)
-            case["blocks"][b]["chops"].append([a, {"count": rng.randint(1, 12)}])
+            if rng.random() < 0.25:
+                for kw in sections(rng):
+                    case["blocks"][b]["chops"].append([a, kw])
+            else:
+                case["blocks"][b]["chops"].append([a, {"count": rng.randint(1, 12)}])
             pattern[r] = "one"
         elif u < 0.8:
             n = rng.randint(1, 12)
             k = rng.randint(2, min(3, len(members)))
             for b, a in rng.sample(members, k):
-                case["blocks"][b]["chops"].append([a, {"count": n}])
+                if n >= 2 and rng.random() < 0.3:
+                    for kw in sections(rng, total=n):  # the same total through several divisions
+                        case["blocks"][b]["chops"].append([a, kw])
+                else:
+                    case["blocks"][b]["chops"].append([a, {"count": n}])
             pattern[r] = "equal"
         else:
             b, a = rng.choice(members)
@@ -87,6 +135,10 @@ def gen_case(ctx):
     return case
 
 
+def has_multigrading(case):
+    return any(sum(1 for ax, _ in blk["chops"] if ax == a) > 1 for blk in case["blocks"] for a in range(3))
+
+
 def predict(case):
     fid, fam, by_pair = lattice.families(case)
     fam_counts = {}
@@ -96,13 +148,10 @@ def predict(case):
         explicit, sized = set(), 0
         for b, a in members:
             chops = [kw for ax, kw in case["blocks"][b]["chops"] if ax == a]
-            if len(chops) > 1:
-                explicit.add(("multi", b, a))
-            for kw in chops:
-                if "count" in kw:
-                    explicit.add(kw["count"])
-                else:
-                    sized += 1
+            if chops and all("count" in kw for kw in chops):
+                explicit.add(sum(kw["count"] for kw in chops))  # divisions of one direction add up
+            else:
+                sized += len(chops)
         if not explicit and not sized:
             has_missing = True
             fam_counts[r] = None
@@ -135,6 +184,8 @@ def run_case(ctx, case):
     ctx.count(f"outcome:{got}")
     if case.get("merges"):
         ctx.count("judged:assembly-with-merged-pair")
+    if has_multigrading(case):
+        ctx.count("judged:multigraded-direction")
     nb, nface, nedge, nvert = lattice.contact_summary(case)
     shared_family = any(len({m[0] for m in members}) >= 2 for members in fam.values())
     pattern = sorted(
